@@ -136,6 +136,50 @@ func (c01) Case(c *core.Ctx) {
 		mm, e := x2j.XmlToMap(doc)
 		check("x2j.XmlToMap", mm, e)
 	}
+	// single-option transition: flip ONE option through its own setter only and decode the same
+	// document again - the result must follow the new configuration (no state left over from the first decode)
+	cfg2 := cfg
+	flip := ""
+	switch r.Intn(7) {
+	case 0:
+		cfg2.Snake = !cfg.Snake
+		mxj.CoerceKeysToSnakeCase(cfg2.Snake)
+		flip = "CoerceKeysToSnakeCase"
+	case 1:
+		cfg2.Lower = !cfg.Lower
+		mxj.CoerceKeysToLower(cfg2.Lower)
+		flip = "CoerceKeysToLower"
+	case 2:
+		cfg2.SimpleAsMap = !cfg.SimpleAsMap
+		mxj.DecodeSimpleValuesAsMap(cfg2.SimpleAsMap)
+		flip = "DecodeSimpleValuesAsMap"
+	case 3:
+		cfg2.DecEsc = !cfg.DecEsc
+		mxj.XMLEscapeCharsDecoder(cfg2.DecEsc)
+		flip = "XMLEscapeCharsDecoder"
+	case 4:
+		cfg2.SeqNum = !cfg.SeqNum
+		mxj.IncludeTagSeqNum(cfg2.SeqNum)
+		flip = "IncludeTagSeqNum"
+	case 5:
+		cfg2.AttrPrefix = attrPrefixes[r.Intn(len(attrPrefixes))]
+		if cfg2.AttrPrefix == cfg2.KeyPrefix {
+			cfg2.AttrPrefix = "-"
+		}
+		mxj.SetAttrPrefix(cfg2.AttrPrefix)
+		flip = "SetAttrPrefix"
+	default:
+		cfg2.CastInt = !cfg.CastInt
+		mxj.CastValuesToInt(cfg2.CastInt)
+		flip = "CastValuesToInt"
+	}
+	if cfg2.usesReserved(root) || cfg2.keyClash(root) {
+		return
+	}
+	c.Count("transition:" + flip)
+	cfg, want0 = cfg2, cfg2.RefDecode(root)
+	m, err = mxj.NewMapXml(doc, cfg.Cast)
+	check("NewMapXml after "+flip, m, err)
 }
 
 // c01class names the deviation shape so that a known finding can be matched by
